@@ -1,6 +1,6 @@
 import GoSSE.Proofs.GenEquivWrite
 import GoSSE.Proofs.MessageWrite
-import GoSSE.Props.C02
+import GoSSE.Proofs.MessageBuild
 /-!
 # `Message.MarshalText` and `Message.String` as translated: `WriteTo` into a buffer
 
@@ -40,8 +40,17 @@ theorem writeTo_bufW (m : Message) (hm : m.retry ≤ (maxInt64 : Int)) :
   rw [e]
   simp only [r0, List.nil_append, Nat.zero_add] at b
   refine ⟨b.1, b.2.1, ?_⟩
-  have := GoSSE.Props.C02.writeTo_never_panics bufW [] m hm
-  rw [e] at this; exact this
+  -- (as `Props.C02.writeTo_never_panics`; proved here again so that this module depends on no property file)
+  have hp : (m.writeTo bufW []).panic = false := by
+    rw [writeTo_body bufW [] m (retryOK_of_le m hm)]
+    simp only
+    have hp : (writeAll bufW (r0 []) m.bodyWrites).panic = false := by rw [writeAll_panic]; rfl
+    split
+    · exact hp
+    · split
+      · exact hp
+      · simpa [WR.write] using hp
+  rw [e] at hp; exact hp
 
 /-- `String()` as translated: the encoding (`strings.Builder` is the bytes written so far) -/
 theorem MessageString_eq (fuel : Nat) (m : Message) (hf : 13 < fuel) (hc : m.chunks.length < fuel) (hm : m.retry ≤ (maxInt64 : Int)) :
